@@ -12,6 +12,13 @@ def config(prop: str, tier: str) -> dict:
         c = dict(flavours=['plain', 'checked', 'asan'] if native else ['plain'],
                  shards=16, seeds=3, timeout=3600)
     c.update(OVERRIDES.get((prop, tier), {}))
+    # a property module may carry its own settings: CONFIG = {'quick': {...}, 'thorough': {...}}
+    try:
+        import importlib
+        mod = importlib.import_module('vf.props.' + prop.lower())
+        c.update(getattr(mod, 'CONFIG', {}).get(tier, {}))
+    except ImportError:
+        pass
     return c
 
 
